@@ -346,6 +346,12 @@ class Transaction:
                     "all record fields."
                 )
         else:
+            # Schema validates its fields once, at construction. The object may
+            # have been edited since (fields assigned or mutated in place): what
+            # it declares NOW is validated again. An id edited to 1.0 or True
+            # compares equal to the table's 1 below, and would key this file's
+            # column bounds by an object manifests cannot store.
+            Schema(schema_id=schema.schema_id, fields=schema.fields)
             self._validate_schema_against_table(schema)
 
         # Create a data file with the records using UUID for uniqueness
